@@ -44,6 +44,13 @@ HOSTILE = [
     ("f({{x}})", "'{{x}}'", "y = f(a)\n", 0),
     ("f({{x}})", "g({{x}})", "y = f('ü→') + f(1)  # é\nz = 'x'; w = f(2)\n", 0),
     ("while {{c}}:\n    {{...+}}", "loop()", "while a:\n    b\n    c\nelse:\n    d\nwhile e:\n    f\n", 0),
+    # a generator expression that shares its parentheses with the call it is the only argument of
+    ("({{a}} for {{a}} in {{b}})", "list({{b}})", "s = sum(x for x in y)\n", 0),
+    ("({{a}} for {{a}} in {{b}})", "{{b}}", "def f(y):\n    return any(x for x in y)\n", 0),
+    ("({{a}} for {{a}} in {{b}})", "iter({{b}})", "line = ', '.join(w for w in words)\nt = [sum(x for x in y), len(y)]\n", 0),
+    ("({{a}} for {{a}} in {{b}})", "sorted({{b}})[::-1]", "g = (x for x in y)\ns = sum((x for x in y), 3)\nprint(max(v for v in values), min(values))\n", 0),
+    ("({{a}} for {{a}} in {{b}})", "tuple({{b}})", "for item in items:\n    if item:\n        out.extend(i for i in item)\n", 0),
+    ("({{a}} for {{a}} in {{b}})", "({{a}} for {{a}} in sorted({{b}}))", "s = sum(x for x in y)\nu = sum((x for x in y))\n", 0),
 ]
 
 EXPR_REPLS = ["g({{A}})", "{{A}} * 2", "not {{A}}", "{{A}}.attr", "{{A}}()", "({{A}}, {{A}})", "{{A}} if cond else {{B}}",
@@ -176,11 +183,16 @@ def _analyse(case, res, pm, R, matcher, sched_model, span, subst):
                 got = "<result does not parse>"
             if got != want:
                 textual = source
+                glued = False  # pasting must not fuse the replacement with a neighbouring token (`sum` + `list(y)`): that is not a precedence question
+                word = lambda ch: ch.isalnum() or ch == "_"  # noqa: E731
                 for r in sorted(S, reverse=True):
                     if r in by_span:
-                        textual = textual[:r[0]] + subst.textual_instantiation(repl, by_span[r][1]) + textual[r[1]:]
+                        piece = subst.textual_instantiation(repl, by_span[r][1])
+                        if piece and ((r[0] > 0 and word(source[r[0] - 1]) and word(piece[0])) or (r[1] < len(source) and word(source[r[1]]) and word(piece[-1]))):
+                            glued = True
+                        textual = textual[:r[0]] + piece + textual[r[1]:]
                 try:
-                    explained = subst.normalised_dump(textual) == got
+                    explained = subst.normalised_dump(textual) == got and not glued
                 except (SyntaxError, ValueError):
                     explained = False
                 viol("tree_differs_from_reference_substitution", {
